@@ -172,6 +172,7 @@ package v2
 //@   ensures[count] err == nil && old(len(wb.entries)) > 0 ==> hdr != nil && hdr.EntryCount == old(len(wb.entries))
 //@   requires[size_nonneg] wb.currentSize >= 0
 //@   ensures[emptied] err == nil ==> len(wb.entries) == 0 && (old(len(wb.entries)) > 0 ==> wb.currentSize == 0)
+//@   ensures[empty_buffer_untouched] old(len(wb.entries)) == 0 ==> wb.currentSize == old(wb.currentSize)
 //@   ensures[kept_on_error] err != nil ==> len(wb.entries) == old(len(wb.entries)) && wb.currentSize == old(wb.currentSize)
 //@   ensures[snappy_never_fails] err == nil
 
@@ -212,6 +213,7 @@ package v2
 //@   ensures[positioned_at_end_after_failure] err != nil ==> fpos(fw.file) == flen(fw.file)
 //@   ensures[failed_flush_keeps_entries] err != nil ==> len(fw.buffer.entries) == old(len(fw.buffer.entries))
 //@   ensures[buffer_emptied_even_on_write_error] len(fw.buffer.entries) == 0 && (old(len(fw.buffer.entries)) > 0 ==> fw.buffer.currentSize == 0)
+//@   ensures[empty_buffer_untouched] old(len(fw.buffer.entries)) == 0 ==> fw.buffer.currentSize == old(fw.buffer.currentSize)
 //@   ensures[flushed] err == nil ==> len(fw.buffer.entries) == 0 && (old(len(fw.buffer.entries)) > 0 ==> fw.buffer.currentSize == 0)
 
 // ---------------------------------------------------------------------------------------
@@ -236,12 +238,12 @@ package v2
 // File-level contracts over the ghost file model (see /verif/govc/trusted/files.spec).
 
 // Durability barrier (property C02): a successful Sync leaves every byte of the file durable.
-//@ func (*FileWriter).Sync(fw) (err)
+//@ func (*FileWriter).Sync(fw) (result)
 //@   property C02
 //@   overflow: assumed
 //@   rely[no_earlier_io_fault] fpos(fw.file) == flen(fw.file) && flen(fw.file) >= 64 + fw.header.NameLength
 //@   modifies *
-//@   csensures[everything_durable] err == nil ==> fsynced(fw.file) == flen(fw.file)
+//@   csensures[everything_durable] result == nil ==> fsynced(fw.file) == flen(fw.file)
 
 // createNewFile (property C29): a new file is the 64-byte header, whose NameLength field is the
 // length of the swamp name, followed by exactly the bytes of the name.
@@ -276,7 +278,7 @@ package v2
 //@   allocbound max(flen(fr.file), 16)
 //@   modifies *
 //@   ensures[torn_header_is_end_of_file] isnil(lastret("File.Seek", 1)) && old(flen(fr.file)) - old(fpos(fr.file)) < 16 ==> err == io.EOF
-//@   ensures[torn_body_is_end_of_file] isnil(lastret("File.Seek", 1)) && old(flen(fr.file)) - old(fpos(fr.file)) >= 16 && old(flen(fr.file)) - old(fpos(fr.file)) - 16 < le32f(fr.file, old(fpos(fr.file))) ==> err == io.EOF
+//@   ensures[torn_body_is_end_of_file] isnil(lastret("File.Seek", 1)) && isnil(lastret("File.Stat", 1)) && old(flen(fr.file)) - old(fpos(fr.file)) >= 16 && old(flen(fr.file)) - old(fpos(fr.file)) - 16 < old(le32f(fr.file, fpos(fr.file))) ==> err == io.EOF
 //@   ensures[accepted_block_passed_checksum] err == nil ==> blk != nil && calls("ParseBlock") == old(calls("ParseBlock")) + 1
 //@ pure le32f(f, o) = fbyte(f, o) + 256 * fbyte(f, o + 1) + 65536 * fbyte(f, o + 2) + 16777216 * fbyte(f, o + 3)
 
